@@ -469,6 +469,14 @@ class Evaluator:
                 return r
         d = dotted(e.func)
         q = self.prog.qualify(self.f.module, d) if d else None
+        if q == "enumerate" and args and set(kwargs) <= {"start"}:
+            st_ = kwargs.get("start", args[1] if len(args) > 1 else 0)
+            if not isinstance(st_, int) or isinstance(args[0], (Opaque,)):
+                raise Licence(f"{self.f.loc(e)}: enumerate over an abstract value / with an abstract start")
+            return list(enumerate(args[0], st_))
+        # keyword arguments of the built-ins below are not modelled: reading the call without them would be a different call
+        if kwargs and q in ("len", "zip", "range", "max", "min", "sum", "sorted", "list", "tuple", "dict", "set", "any", "all", "int", "abs", "next", "dict.fromkeys", "numpy.arange", "numpy.any", "numpy.all"):
+            raise Licence(f"{self.f.loc(e)}: keyword argument(s) {sorted(kwargs)} of {q} are outside the guard vocabulary")
         if q in ("numpy.asarray", "numpy.array", "numpy.atleast_1d") and len(args) == 1 and isinstance(args[0], (list, tuple)) and all(isinstance(x, (int, Fraction, bool)) for x in args[0]):
             return Vec(args[0])
         if q == "numpy.arange" and 1 <= len(args) <= 3 and all(isinstance(x, (int, Fraction)) and not isinstance(x, bool) for x in args):
@@ -505,8 +513,6 @@ class Evaluator:
             if isinstance(args[0], (list, tuple, str, dict)):
                 return len(args[0])
             raise Licence(f"{self.f.loc(e)}: len of abstract value {args[0]!r}")
-        if q == "enumerate" and args:
-            return list(enumerate(args[0], *args[1:2]))
         if q in ("itertools.count", "count") and len(args) <= 1 and all(isinstance(a, int) and not isinstance(a, bool) for a in args):
             return _Count(args[0] if args else 0)
         if q == "next" and len(args) == 1 and isinstance(args[0], _Count):
@@ -578,6 +584,17 @@ class Evaluator:
         if q == "print":
             self.printed.append(src(e))
             return None
+        if isinstance(e.func, ast.Attribute) and e.func.attr in ("debug", "info", "warning", "warn", "error", "critical", "exception", "log") and isinstance(e.func.value, ast.Name):
+            # a module-level logging.getLogger(...) object (or the logging module): output only
+            nm = e.func.value.id
+            is_logger = (self.prog.qualify(self.f.module, nm) or "") == "logging" or any(
+                isinstance(st, (ast.Assign, ast.AnnAssign)) and st.value is not None and isinstance(st.value, ast.Call)
+                and (self.prog.qualify(self.f.module, dotted(st.value.func) or "") or "") == "logging.getLogger"
+                and any(isinstance(t, ast.Name) and t.id == nm for t in ([st.target] if isinstance(st, ast.AnnAssign) else st.targets))
+                for st in self.f.module.tree.body)
+            if is_logger:
+                self.printed.append(src(e))
+                return None
         # well-formedness probes on an argument nothing is known about: the abstract inputs stand for well-typed objects (a given sampler *is* a
         # sampler), so a duck-typing probe succeeds on them and fails on None
         if q == "hasattr" and len(args) == 2 and isinstance(args[1], str) and (args[0] is None or isinstance(args[0], Opaque)):
